@@ -111,6 +111,7 @@ void status_head(const std::string &head);        // plan header of the case bei
 void status_ops(const std::string &ops);          // ops of the schedule being run
 void status_ops_raw(const char *s, size_t n);
 void status_index(uint64_t run_index);
+void sim_install_altstack();     // per thread; no-op under ASan (it has its own)
 void status_progress();                           // bump progress counter for the watchdog
 
 // ---------------------------------------------------------------- violations
